@@ -7,6 +7,8 @@ CONSTANTS
  DevMolsPerFile = FALSE
  DevDirKeep = FALSE
  DevElseKeep = FALSE
+ DevRootFirst = FALSE
+ DevEdgesNewOnly = FALSE
 INVARIANT Mark
 INVARIANT NoStruct
 POSTCONDITION Accepted
